@@ -13,6 +13,7 @@ import (
 	"sync/atomic"
 	"time"
 
+	"github.com/cnotch/ipchub/utils/vhook"
 	"github.com/cnotch/scheduler"
 )
 
@@ -100,6 +101,7 @@ func (pl *Playlist) Segment(seq int) (io.Reader, int, error) {
 
 	for _, seg := range pl.segments {
 		if seg.sequenceNo == seq {
+			vhook.At("hls.seg.found", pl)
 			return seg.file.get()
 		}
 	}
